@@ -131,7 +131,7 @@ def rust_ty(text):
 # mode: 'pure' (no arena state) | 'read' (reads s, returns Outcome) | 'st' (threads s)
 class Fn:
     def __init__(self, name, kind, mode, file="src/lib.rs", anchor=None, nth=0, group="Arith", lean=None, self_ty=None,
-                 region=None, free=None, self_fields=None, ptypes=None):
+                 region=None, free=None, self_fields=None, ptypes=None, ret=None):
         self.name, self.kind, self.mode, self.file, self.anchor, self.nth, self.group = name, kind, mode, file, anchor, nth, group
         self.lean = lean or name
         self.self_ty = self_ty
@@ -144,6 +144,7 @@ class Fn:
         self.self_fields = self_fields or []
         # parameter types the signature leaves generic (closures)
         self.ptypes = ptypes or {}
+        self.ret = ret      # return type the signature spells through an associated type
         # a value of the element type returned by this function goes to the caller of the crate (event `moveOut`); internal
         # helpers (an iterator's `next` called by its own destructor) do not emit it
         self.moves_out = True
@@ -176,6 +177,10 @@ FUNCS = [
     Fn("as_raw_parts", "chunk", "read", group="Iter", anchor="impl ChunkFooter"),
     Fn("next", "iter", "read", group="Iter", anchor="for ChunkRawIter", lean="chunk_raw_iter_next",
        self_fields=[("footer", "NonNull<ChunkFooter>")]),
+    Fn("next", "iter", "read", group="Iter", anchor="Iterator for ChunkIter<'a, MIN_ALIGN>", lean="chunk_iter_next",
+       self_fields=[("raw", "NonNull<ChunkFooter>")], ret=opt(("tuple", [NAT, NAT]))),
+    Fn("iter_allocated_chunks_raw", "bump", "read", group="Iter", ret=CHUNK),
+    Fn("iter_allocated_chunks", "bump", "read", group="Iter", ret=CHUNK),
     Fn("is_last_allocation", "bump", "read", group="Realloc"),
     Fn("try_alloc_layout", "bump", "st", group="Realloc"),
     Fn("dealloc", "bump", "st", group="Realloc", anchor="unsafe fn is_last_allocation"),
@@ -359,7 +364,7 @@ class Tr:
         self.fn, self.sig, self.body = fn, sig, body
         self.mode = fn.mode
         self.nj = 0
-        self.ret = rust_ty(sig["ret"])
+        self.ret = fn.ret if fn.ret is not None else rust_ty(sig["ret"])
         self.st = fn.mode == "st"
         self.lifted = []
         # soundness guard for chunk-typed locals: a `let f = self.current_chunk_footer.get()` is a *pointer* in the source
@@ -814,6 +819,8 @@ class Tr:
                 return "()", UNIT       # the vector's destructor does not run (it has none: the buffer stays in the arena)
             if segs[-2:] == ["mem", "zeroed"] and not pa and self.fn.kind in VECK:
                 return "RsM.zst_any", ELEM     # a value of a zero-sized type made up from nothing
+            if segs[-1] in ("from_raw_parts_mut", "from_raw_parts") and len(pa) == 2 and pa[0][1] == NAT and pa[1][1] == NAT:
+                return f"({pa[0][0]}, {pa[1][0]})", ("tuple", [NAT, NAT])
             if segs[-1] in ("from_raw_parts_mut", "from_raw_parts") and len(pa) == 2 and pa[0][1] == SLOT and pa[1][1] == NAT:
                 return f"({pa[0][0]}, {pa[1][0]})", SLICE
             if segs == ["ExtendElement"] and len(pa) == 1 and pa[0][1] == ELEM:
@@ -877,6 +884,16 @@ class Tr:
                 if set(d) != {"tail_start", "tail_len", "iter", "vec"} or d["iter"][1] != ITER2 or d["vec"][1] != VECSELF:
                     return None
                 return f"(V.Drain.mk {d['tail_start'][0]} {d['tail_len'][0]} {paren(d['iter'][0])}.1 {paren(d['iter'][0])}.2)", DRAIN
+            if segs[-1] in ("ChunkRawIter", "ChunkIter") and len(fs) == 2:
+                d = {}
+                for f, fe in fs:
+                    p = self.pure(fe, env)
+                    if p is None: return None
+                    d[f] = p
+                key = "footer" if segs[-1] == "ChunkRawIter" else "raw"
+                if set(d) != {key, "bump"} or d[key][1] != CHUNK:
+                    return None
+                return d[key][0], CHUNK      # the iterator is the footer it stands at
             if segs[-1] == "Bump":
                 d = {}
                 for f, fe in fs:
@@ -1326,7 +1343,7 @@ class Tr:
     def call_fn(self, g, recv, pa, env, k):
         if g.sig is None:
             raise Untranslatable(f"{g.name} is called but could not be translated itself")
-        rty = rust_ty(g.sig["ret"])
+        rty = g.ret if g.ret is not None else rust_ty(g.sig["ret"])
         lead = []
         if g.kind == "dfilter":
             lead = ["c", "pred"]
@@ -1712,6 +1729,18 @@ class Tr:
                 return f"(RsM.bindW (RsM.clone_next c {ln} {self.sv}) fun {self.sv} {r} =>\n{body})"
             if name == "last":      # `self.0`: the value itself moves out
                 return k(ln, ELEM, env.disown(ln).own(ln))
+        if recv == ("field", ("path", ["self"]), "raw") and "self.raw" in env.d and env.d["self.raw"][1] == CHUNK and name == "next" and not args \
+                and self.fn.kind == "iter":
+            g = FN_LEAN.get("chunk_raw_iter_next")
+            if g is None or g.sig is None:
+                raise Untranslatable("ChunkRawIter::next is not translated")
+            ity = ("tuple", [NAT, NAT])
+
+            def kraw(r, ty_, e2):
+                e3, ln = e2.bind("self.raw", CHUNK)
+                self.chunk_ver[ln] = self.version
+                return f"let {ln} := {r}.2;\n{k(r + '.1', opt(ity), e3)}"
+            return self.bind_call(f"Gen.Fn.chunk_raw_iter_next E M {env.d['self.raw'][0]} {self.sv}", "pure", K(kraw), env, ("tuple", [opt(ity), CHUNK]))
         if recv == ("field", ("path", ["self"]), "iter") and "self.iter" in env.d and env.d["self.iter"][1] == ITER2 \
                 and name in ("next", "next_back") and not args:
             it = env.d["self.iter"][0]
